@@ -8,6 +8,7 @@ use crate::common::*;
 use crate::suites::c17;
 use git_ai::authorship::authorship_log_serialization::AuthorshipLog;
 use git_ai::authorship::rebase_authorship::verif_hooks as rb;
+use git_ai::authorship::transcript::Message;
 use serde_json::{Value, json};
 use std::collections::{BTreeMap, HashSet};
 use std::io::{BufRead, Write};
@@ -73,6 +74,47 @@ fn gen_c15_log(rng: &mut Rng) -> AuthorshipLog {
         }
     }
     log.metadata.base_commit_sha = gen_base(rng);
+    // a LATER occurrence of the field name as an unescaped JSON key: tool-call inputs kept in the
+    // prompt records (prompts follow base_commit_sha in serde's field order)
+    if rng.chance(2, 5) {
+        if log.metadata.prompts.is_empty() || rng.chance(1, 4) {
+            let h = hex(rng, 16);
+            let mut donor = c17::gen_log(rng);
+            while donor.metadata.prompts.is_empty() {
+                donor = c17::gen_log(rng);
+            }
+            let rec = donor.metadata.prompts.into_values().next().unwrap();
+            log.metadata.prompts.insert(h, rec);
+        }
+        let keys: Vec<String> = log.metadata.prompts.keys().cloned().collect();
+        let n = 1 + rng.below(2);
+        for _ in 0..n {
+            let k = &keys[rng.below(keys.len() as u64) as usize];
+            let v = match rng.below(6) {
+                0 => json!("abc"),
+                1 => json!(hex(rng, 40)),
+                2 => json!("zz\"q\\"),
+                3 => json!(7),
+                4 => json!(null),
+                _ => json!(""),
+            };
+            let input = match rng.below(5) {
+                0 => json!({"base_commit_sha": v}),
+                1 => json!({"args": {"base_commit_sha": v, "x": 1}}),
+                2 => json!({"a": [{"zz": 0}, {"base_commit_sha": v}]}),
+                3 => json!({"aaa": "before", "base_commit_sha": v, "zzz": {"base_commit_sha": "inner"}}),
+                _ => json!([{"deep": {"er": {"base_commit_sha": v}}}]),
+            };
+            let ts = if rng.chance(1, 2) { Some("2025-10-01T00:00:00Z".to_string()) } else { None };
+            let rec = log.metadata.prompts.get_mut(k).unwrap();
+            let msg = Message::ToolUse { name: rng.pick(&["git_rebase", "base_commit_sha", "edit"]).to_string(), input, timestamp: ts };
+            if rng.chance(1, 2) {
+                rec.messages.push(msg);
+            } else {
+                rec.messages.insert(0, msg);
+            }
+        }
+    }
     match rng.below(14) {
         0 => log.metadata.schema_version = "x\"base_commit_sha".to_string(),
         1 => log.metadata.git_ai_version = Some("v\"base_commit_sha".to_string()),
@@ -241,7 +283,9 @@ fn pure_case(rng: &mut Rng, em: &mut Emitter) {
     let in_domain = c17::unserializable_reason(&log).is_none();
     let dom = if in_domain { "serializable" } else { "outside:c17-domain" };
     let field_in_att = log.attestations.iter().any(|f| f.file_path.contains(FIELD));
-    let base_tags = vec![dom.to_string(), format!("field_in_path={field_in_att}")];
+    let meta_json = serde_json::to_string(&log.metadata).unwrap();
+    let later_keys = meta_json.matches("\"base_commit_sha\":").count().saturating_sub(1);
+    let base_tags = vec![dom.to_string(), format!("field_in_path={field_in_att}"), format!("later_field_keys={}", later_keys.min(3))];
     let with = |k: &str| {
         let mut t = base_tags.clone();
         t.push(format!("kind={k}"));
